@@ -95,7 +95,7 @@ fn c19_fleet_retry_classification_app() {
 // connected client are stubs that consult the script and keep a shadow record of
 // what every attempt saw; ensure_connected, invalidate_client,
 // is_retryable_error, lock_node_client and the loop itself are the real code.
-const RL_SLOTS: usize = 4;
+const RL_SLOTS: usize = 5;
 const RL_CONNS: usize = 6;
 const O_REFUSED: u8 = 0; // connect refused (on a live cached connection the call sees a reset instead)
 const O_CLOSED: u8 = 1; // accepted then closed / reset / silent until timeout: any transport kind
@@ -228,6 +228,7 @@ fn rl_setup(max_attempts: usize, cached: bool) -> (Fleet, Arc<NodeState>) {
     kani::assume(script[1] <= O_OK && (kinds[1] as usize) < TRANSPORT.len() && kinds[1] >= 1);
     kani::assume(script[2] <= O_OK && (kinds[2] as usize) < TRANSPORT.len() && kinds[2] >= 1);
     kani::assume(script[3] <= O_OK && (kinds[3] as usize) < TRANSPORT.len() && kinds[3] >= 1);
+    kani::assume(script[4] <= O_OK && (kinds[4] as usize) < TRANSPORT.len() && kinds[4] >= 1);
     unsafe {
         RL_SCRIPT = script;
         RL_KIND = kinds;
@@ -270,6 +271,7 @@ fn rl_check(ok_marker: Option<u64>, error: &Option<RepeError>, node: &Arc<NodeSt
     assert!(n < 2 || seen[0] == S_TRANSPORT, "retried after a reply (success, application error or non-transport error)");
     assert!(n < 3 || seen[1] == S_TRANSPORT, "retried after a reply (success, application error or non-transport error)");
     assert!(n < 4 || seen[2] == S_TRANSPORT, "retried after a reply (success, application error or non-transport error)");
+    assert!(n < 5 || seen[3] == S_TRANSPORT, "retried after a reply (success, application error or non-transport error)");
     let (last, last_kind) = unsafe { (RL_SEEN[n - 1], RL_SEEN_KIND[n - 1]) };
     match (ok_marker, error) {
         (Some(m), None) => {
@@ -375,6 +377,31 @@ fn rl_message_second<const MAXA: usize>() {
 #[kani::unwind(4)]
 fn c19_fleet_retry_loop_message_a3() {
     rl_message::<3, false>();
+}
+
+//@ name: c19_fleet_retry_loop_message_a4
+//@ prop: C19
+//@ tier: thorough
+//@ clause: for every per-attempt outcome sequence of one node (connect refused; accepted then closed, reset or silent until timeout, with any transport kind of contract D; undecodable reply; application error; success): at most max_attempts attempts, a further attempt only after a transport failure, the reported result is the last attempt's reply or error, a connection that failed is never used again, and after a transport failure no client stays cached (a later call reconnects); message call on a node with no cached connection
+//@ funcs: Fleet::call_message_with_retry / call_json_with_retry, fleet::ensure_connected, fleet::invalidate_client, fleet::is_retryable_error, fleet::lock_node_client
+//@ symbolic: max_attempts, the outcome of every attempt (5-letter alphabet x 6 transport kinds), whether a cached connection died while idle
+//@ bounds: max_attempts 1..=4; one node, blocking Fleet; unwind 5
+//@ oracle: shadow record of what each attempt saw, written by the environment stubs, checked after the call returns
+//@ stubs: Client::connect, Client::call_message_with_timeout / call_json_with_timeout -> scripted environment with shadow record; thread::sleep -> counter; Instant::now / elapsed -> constants; RandomState::new -> fixed keys; <ClientInner as Drop>::drop -> no-op; Arc::drop_slow -> leak
+//@ assumes: a connection that failed at transport level, or died while idle, fails with BrokenPipe when used; releasing the last reference to shared state (socket shutdown/close, failing pending callers) is outside the model
+#[kani::proof]
+#[kani::stub(crate::client::Client::connect, rl_connect_stub)]
+#[kani::stub(crate::client::Client::call_message_with_timeout, rl_call_stub)]
+#[kani::stub(crate::client::Client::call_json_with_timeout, rl_call_json_stub)]
+#[kani::stub(std::thread::sleep, rl_sleep_stub)]
+#[kani::stub(std::time::Instant::now, rl_now_stub)]
+#[kani::stub(std::time::Instant::elapsed, rl_elapsed_stub)]
+#[kani::stub(std::hash::RandomState::new, crate::verif_common::random_state_stub)]
+#[kani::stub(<crate::client::ClientInner as std::ops::Drop>::drop, crate::client::verif_kani::client_inner_drop_stub)]
+#[kani::stub(std::sync::Arc::drop_slow, crate::verif_common::arc_drop_slow_stub)]
+#[kani::unwind(5)]
+fn c19_fleet_retry_loop_message_a4() {
+    rl_message::<4, false>();
 }
 
 //@ name: c19_fleet_retry_loop_json_a2
